@@ -8,6 +8,20 @@ TB = ("Trusted: Lean 4.33.0 kernel; axioms propext/Quot.sound/Classical.choice o
       "working tree on every run (differential, exhaustive on the small axes, sampled elsewhere); Go stdlib semantics written into the model.")
 
 CLAIMS = {
+ "C07": dict(
+   text="Lean theorems (Properties/C07.lean) over the model of the read loop of all three clients: complete_reply/C07_partial - for EVERY fragmentation of a conforming reply into non-empty reads with any number of timed-out reads in between (induction over the script, unbounded), the call returns exactly the parsed reply whenever ExpectedResponseLength equals the reply length, which expLen_ok proves for TCP FC1,2,3,4,6,15,16 and RTU FC15,16; exception_reply_tcp - an exception frame is returned as the typed exception for every fragmentation when at least 9 bytes are announced; never_truncated - a frame reaches the parser only after the announced number of bytes (or EOF). The other eleven request types announce a wrong length (test-pinned): 13 known findings with witness theorems (C07_full_false). Tie to the code: 20 request types x 3 clients x reply sizes x every single cut position (thorough: all), all cut sets of replies <= 12 bytes, pairs of cuts, byte-by-byte, timeouts in between, exception replies; real Client/SerialClient against a scripted net.Conn / serial port.",
+   ref="DESIGN.md §3 C07", technique="Lean 4 proof (induction over read scripts) + differential correspondence check against scripted transports",
+   note="Trusted as everywhere, plus: the transport script abstraction (one event per Read call; chunk sizes as served by the scripted net.Conn/io.ReadWriteCloser of the harness), time.After modelled as 'fires only after the script is exhausted'."),
+ "C08": dict(
+   text="Lean theorems (Properties/C08.lean): the read loop is a total structural recursion over the transport script (no hang, no panic outcome); after ANY harmless prefix of reads (any cut of a proper prefix of a reply, with timeouts) a stall ends in ClientError(timeout), an I/O error in ClientError(io), cancellation in the context's error, more bytes than a frame can hold in ErrPacketTooLong, a rejected write in ClientError(write) [a failing serial flusher replaces these by its own ClientError]; every error is one of the classified ones; success needs the announced number of bytes or EOF. PARTIAL with respect to real time: 'returns within a bounded time' is the Go timer, measured by the harness (10 s watchdog per call => outcome HANG), not proved; not-connected / nil-request returns are checked by the correspondence run only. Known finding KF-C08-fc17-prefix (truncated FC17 reply reported as success; same root as KF-C07-fc17). Tie to the code: every request type x prefix lengths x {stall, EOF, I/O error, oversize, write error, cancel, not connected, nil request} x 3 clients x flusher none/ok/failing.",
+   ref="DESIGN.md §3 C08", technique="Lean 4 proof (totality + case lemmas over read scripts) + fault-injecting correspondence check",
+   note="As C07. Real time, the Go scheduler and net deadlines are outside the model (partial)."),
+ "C12": dict(
+   text="Lean theorems (Properties/C12.lean): for the RTU network client and the serial client and EVERY transport script (hence every corruption, truncation, extension and fragmentation), a returned response was parsed from a frame whose CRC matches and a returned device exception was recognised on five bytes whose CRC matches; contrapositive = the property. (The unrepaired code recognised exceptions before any CRC check: repaired in 31b1edb.) Tie to the code: every RTU reply shape x all single-bit flips (sampled beyond 16 bytes in quick), byte substitutions, multi-byte corruptions, truncations, extensions, 5-byte exception look-alikes x whole / cut at 5 / random cuts.",
+   ref="DESIGN.md §3 C12", technique="Lean 4 proof (invariant over read scripts + CRC lemmas of C03) + corruption-injecting correspondence check"),
+ "C19": dict(
+   text="Lean theorems (Properties/C19.lean): installing hooks does not change the outcome; BeforeWrite is the first call and receives the encoded request; AfterEachRead is called once per read the transport served, in order, with exactly the bytes, count and error of that read (readLoop_log); BeforeParse, when a frame is handed to the parser, is the last call and receives exactly the concatenation of the bytes read; it is not called on errors. Tie to the code: a recording ClientHooks implementation on all three clients; its log is compared with the reads the scripted transport actually served (ground truth kept by the transport), for the fragmentation and fault scripts of C07/C08, each call also repeated without hooks.",
+   ref="DESIGN.md §3 C19", technique="Lean 4 proof (log invariant over read scripts) + correspondence check with a recording hook and a recording transport"),
  "C05": dict(
    text="Lean theorems (Properties/C05.lean): builder_extract - for every field list and FC3/FC4 target for which split() returns requests, the requests' fields are a permutation of the register fields (each exactly once) and, for every request, every device memory image, every spare capacity, strict or lenient mode and every reply of k>=1 delivered registers (k = quantity: the full conforming reply; k < quantity: the truncation clause) with the window inside the address space, ExtractFields equals the specification loop: each field in order with the value decoded DIRECTLY from the device memory at the field's own address/type/order when its registers were delivered, an error otherwise; corollaries: all fields delivered => every field reported with its direct value; strict mode fails as a whole iff some field is unreachable; lenient mode returns every field with exactly the unreachable ones failed. Built from C04 (accessor = addressed wire bytes), C06 (span inside window, permutation) and C13 (payload unchanged between fields). Tie to the code: 12k (thorough 600k) scenarios: random field multisets over several servers/units, memory images (binary and text with NULs), FC3/FC4 x TCP/RTU, strict/lenient, truncation at 1..125 registers; replies are encoded by the harness independently and must equal the library's own encoding; values compared with direct decoding of the memory.",
    ref="DESIGN.md §3 C05", technique="Lean 4 proof (composition of C04, C06, C13; induction over the field list) + differential correspondence check"),
